@@ -639,7 +639,7 @@ func (h *H) allIDs() []recID {
 // reconcile runs one reconcile invocation, stopping it after `budget` store/device write calls (-1: no limit)
 func (h *H) reconcile(id recID, budget int) {
 	h.crash.reset(budget)
-	if id.kind == "tx" && budget < 0 && h.r.Intn(8) == 0 {
+	if id.kind == "tx" && budget < 0 && h.r.Intn(3) == 0 {
 		h.crash.arm(h.r.Intn(2))
 	}
 	h.vmu.Lock()
